@@ -54,3 +54,149 @@ def _list_method(ex, st, lst, name, args, kwargs, node):
 
 
 lib.list_method = _list_method
+
+
+# ---- len(set(xs)) --------------------------------------------------------------------------------
+# LEMMA card-of-list-set (pigeonhole): for a sequence xs of length n, the set of its elements has at most n members,
+#       and exactly n iff the elements are pairwise distinct.  The core leaves the cardinality of set(xs)
+#       uninterpreted; IdManager.prepare detects a name used twice by `len(xs) != len(set(xs))`.
+from pyvc.vals import I, as_ref, uf   # noqa: E402
+from pyvc import vals as _VV          # noqa: E402
+
+_orig_set_of = lib.set_of
+
+
+def _set_of(ex, st, v):
+    out = _orig_set_of(ex, st, v)
+    if _mine(ex) and v.kind != 'set':
+        try:
+            n, arr, _ = lib.seq_parts(ex, st, v)
+        except Exception:
+            return out
+        card = uf('set_card', I, z3.ArraySort(Val, _VV.B), I)(as_ref(out), st.set_dom(out))
+        a, b = z3.Int(fresh_name('a')), z3.Int(fresh_name('b'))
+        distinct = z3.ForAll([a, b], z3.Implies(z3.And(a >= 0, a < b, b < n), z3.Select(arr, a) != z3.Select(arr, b)))
+        st.assume(z3.And(card >= 0, card <= n, (card == n) == distinct))
+        ex.ctx.note('LEMMA card-of-list-set: len(set(xs)) <= len(xs), with equality iff the elements of xs are pairwise distinct (pigeonhole)')
+    return out
+
+
+lib.set_of = _set_of
+
+
+# ---- reading the saved-iteration file (BIOGEME._load_saved_iteration) ---------------------------------
+# LIBSPEC open(name) for reading: either OSError, or a file object whose iteration yields the lines of the file;
+#         the content of a file is an unknown but fixed sequence of strings, a function of the file name
+#         (c03c_file_lines(name)); nothing in the function under contract writes files.
+# LIBSPEC s.rpartition(sep): a triple of strings (head, sep-or-empty, tail), uninterpreted functions of (s, sep).
+#         The contract of _load_saved_iteration speaks about the same functions: name of a line = head of
+#         line.rstrip().rpartition(' = '), value of a line = float(tail).
+import ast                                         # noqa: E402
+from pyvc.specs_runtime import spec                # noqa: E402
+from pyvc.vals import STR, R, as_atom, v_tuple, v_real, v_bool, v_py   # noqa: E402
+
+_B = _VV.B
+_SEP = ' = '
+
+
+def _file_seq(name_atom):
+    n = uf('c03c_file_nlines', I, I)(name_atom)
+    arr = uf('c03c_file_lines', I, z3.ArraySort(I, Val))(name_atom)
+    return n, arr
+
+
+def _with_open_read(ex, st, node):
+    if not _mine(ex) or len(node.items) != 1:
+        return None
+    c = node.items[0].context_expr
+    if not (isinstance(c, ast.Call) and isinstance(c.func, ast.Name) and c.func.id == 'open' and c.args):
+        return None
+    mode = c.args[1] if len(c.args) > 1 else next((k.value for k in c.keywords if k.arg == 'mode'), None)
+    if mode is not None:
+        mv = ex.ev(st, mode)
+        if mv.lit is None or mv.lit not in ('r', 'rt'):
+            return None
+    name = ex.ev(st, c.args[0])
+    if name.kind != 'str':
+        return None
+    na = as_atom(name)
+    readable = uf('c03c_file_readable', I, _B)(na)
+    ex.ctx.note('LIBSPEC open(name) for reading: OSError, or an iterator over the lines of the file (content: unknown fixed function of the name)')
+    if not ex.decide(st, readable):
+        raise Raised('OSError')
+    n, arr = _file_seq(na)
+    st.assume(n >= 0)
+    j = z3.Int(fresh_name('j'))
+    st.pc.append(z3.ForAll([j], Val.is_s(z3.Select(arr, j))))
+    fobj = v_py(('specseq', n, arr, STR))
+    if node.items[0].optional_vars is not None:
+        ex.assign(st, node.items[0].optional_vars, fobj)
+    return ex.exec_block(st, node.body)
+
+
+lib.HOOKS['exec_with'].append(_with_open_read)
+
+
+def _rpart(s_atom, sep_atom):
+    return (uf('c03c_rpart_head', I, I, I)(s_atom, sep_atom), uf('c03c_rpart_mid', I, I, I)(s_atom, sep_atom),
+            uf('c03c_rpart_tail', I, I, I)(s_atom, sep_atom))
+
+
+_orig_value_method = lib.value_method
+
+
+def _value_method(ex, st, recv, name, args, kwargs, node):
+    if _mine(ex) and recv.kind == 'str' and name == 'rpartition' and len(args) == 1 and not kwargs and args[0].kind == 'str':
+        h, m, t = _rpart(as_atom(recv), as_atom(args[0]))
+        ex.ctx.note('LIBSPEC str.rpartition(sep): (head, sep or empty, tail), uninterpreted functions of the string and the separator')
+        return v_tuple([V(Val.s(h), STR), V(Val.s(m), STR), V(Val.s(t), STR)])
+    return _orig_value_method(ex, st, recv, name, args, kwargs, node)
+
+
+lib.value_method = _value_method
+
+
+@spec('c03c_file_readable')
+def c03c_file_readable(ex, st, name):
+    return v_bool(uf('c03c_file_readable', I, _B)(as_atom(name)))
+
+
+@spec('c03c_file_lines')
+def c03c_file_lines(ex, st, name):
+    """the lines of the file of that name (a sequence of strings)"""
+    n, arr = _file_seq(as_atom(name))
+    return v_py(('specseq', n, arr, STR))
+
+
+def _stripped(line):
+    return uf('str_rstrip', I, I)(as_atom(line))
+
+
+@spec('c03c_line_name')
+def c03c_line_name(ex, st, line):
+    """the parameter name a line `name = value` carries: head of line.rstrip().rpartition(' = ')"""
+    return V(Val.s(_rpart(_stripped(line), _VV.ATOMS.atom(_SEP))[0]), STR)
+
+
+@spec('c03c_line_value')
+def c03c_line_value(ex, st, line):
+    """the value a line `name = value` carries: float(tail of line.rstrip().rpartition(' = '))"""
+    return v_real(uf('float_of_str', I, R)(_rpart(_stripped(line), _VV.ATOMS.atom(_SEP))[2]))
+
+
+# ---- type(x) of an untyped value (only formatted into an error message in get_value_and_derivatives) --------
+from pyvc.state import Unsupported as _Unsupported   # noqa: E402
+
+_orig_b_type = lib.BUILTINS['type']
+
+
+def _b_type(ex, st, args, kw, node):
+    try:
+        return _orig_b_type(ex, st, args, kw, node)
+    except _Unsupported:
+        if _mine(ex):
+            return v_py(('c03ctypeof', args[0].t.get_id() if args[0].t is not None else 0))
+        raise
+
+
+lib.BUILTINS['type'] = _b_type
